@@ -2,7 +2,7 @@ T = lambda q, t: {"quick": q, "thorough": t}
 
 SPEC = dict(
     level="exploration",
-    technique="reference log stepped alongside the real history object over random add/save/load/clear histories; arbitrary bytes as the history file",
+    technique="reference log stepped alongside the real history object over random add/save/load/clear histories; arbitrary bytes as the history file; thorough adds a coverage-guided go test -fuzz workload (FuzzHistoryFile) with the same oracles",
     level_text="A three-rule reference log (append; an immediate repeat replaces the last entry; keep the newest MaxSize) is stepped next to a "
                "real *history.SearchHistory through thousands of random histories of 1-600 operations (AddEntry, Save, Load on the same "
                "object and on fresh objects sharing the file, Clear, views); after every step the entries are compared field by field, "
@@ -15,7 +15,7 @@ SPEC = dict(
     engines=[
         dict(name="histmodel", shards=T(16, 16), timeout=T(600, 3000)),
         dict(name="histfiles", shards=T(16, 16), timeout=T(600, 3000)),
-    ],
+             dict(name="gofuzz-FuzzHistoryFile", kind="gofuzz", target="FuzzHistoryFile", fuzztime=T(0, "90s"))],
     rule="histmodel: case = one history (initial maximum in {1,2,3,100,<=0 -> default}, a pool of 2-7 queries incl. empty, 5 KB, multi-line, "
          "control characters, quotes, unicode and - in 15% of the histories - invalid UTF-8, and 1-600 operations add/save/load/"
          "load-into-fresh-object/new-object/clear/views with 35% immediate repeats); non-trivial = a distinct history that ran to its "
